@@ -101,6 +101,12 @@ pub mod par {
     ///
     /// [`FrameBuf`]: crate::source::FrameBuf
     pub const FRAMEBUF_MULTIPLICITY: usize = 2;
+
+    /// The maximum number of worker threads in par-mode.
+    ///
+    /// A larger number given by the config, the environment variable, or the
+    /// platform is clamped to this value.
+    pub const MAX_WORKERS: usize = 256;
 }
 
 /// Constants related to quantized linear predictive coding (QLPC).
